@@ -165,3 +165,77 @@ def fact_list(func, nid):
         c, truth = negate_truth(c, truth)
         out.append((c, truth))
     return out
+
+
+# ---- path feasibility: prune paths that take one pure condition both ways --------------
+PURE_CALLS = {"strcmp", "strncmp", "strlen", "strchr", "strrchr", "strstr", "isdigit", "isalpha",
+              "isspace", "islower", "isupper", "isalnum", "atoi", "memcmp",
+              "ex_path", "ex_lbuf", "ex_filetype", "lbuf_len", "lbuf_get", "uc_len", "uc_code",
+              "uc_slen", "uc_chr", "uc_off", "term_rows", "term_cols"}
+
+
+def is_pure(cond):
+    for n in walk(cond):
+        if n["k"] == "bin" and n["op"] in ASSIGN_OPS:
+            return False
+        if n["k"] == "un" and n["op"] in INCDEC:
+            return False
+        if n["k"] == "call" and n.get("fn") not in PURE_CALLS:
+            return False
+    return True
+
+
+def _reads_globals(cond):
+    for n in walk(cond):
+        if n["k"] == "call":
+            return True
+        if n["k"] == "ref" and n["cat"] in ("global", "slocal"):
+            return True
+    return False
+
+
+def path_consistent(func, items):
+    """False when the path evaluates the same pure condition to both truth values with
+    nothing in between that could change it (heuristic: direct stores to the variables
+    it mentions; for conditions that read globals or call repository functions, any
+    store to a global/field or any call to a function outside PURE_CALLS)."""
+    seen = {}   # key -> (truth, index)
+    for i, it in enumerate(items):
+        if it[0] != "br":
+            continue
+        c = func.nodes.get(it[1])
+        if c is None or not is_pure(c):
+            continue
+        c0, t0 = negate_truth(c, it[2])
+        k = key(c0)
+        if k in seen and seen[k][0] != t0:
+            j = seen[k][1]
+            names = {r["name"] for r in refs(c0)}
+            rg = _reads_globals(c0)
+            changed = False
+            for jt in items[j + 1:i]:
+                if jt[0] != "ev":
+                    continue
+                n = func.nodes.get(jt[1])
+                if n is None:
+                    continue
+                if (n["k"] == "bin" and n["op"] in ASSIGN_OPS) or (n["k"] == "un" and n["op"] in INCDEC):
+                    lv = n["l"] if n["k"] == "bin" else n["e"]
+                    v = lv_var(lv)
+                    if v and v[0] in names:
+                        changed = True
+                    if rg and (lv_field(lv) or (v and v[1] in ("global", "slocal"))):
+                        changed = True
+                elif n["k"] == "call" and rg and n.get("fn") not in PURE_CALLS:
+                    # a repository call may store globals; libc calls that do not take the
+                    # mentioned variables by address are harmless
+                    changed = True
+                elif n["k"] == "call":
+                    for a in n["args"]:
+                        if a["k"] == "un" and a["op"] == "&" and lv_var(a["e"]) and \
+                                lv_var(a["e"])[0] in names:
+                            changed = True
+            if not changed:
+                return False
+        seen[k] = (t0, i)
+    return True
